@@ -447,3 +447,12 @@ def random_utf8(rng):
     n = rng.randint(0, 80)
     alphabet = list("abcXYZ019 \n\t:[]()+-*\"'#$_.,=<>?&|\\") + ["é", "ß", "中", "\u2028", "\x00", "\x7f", "\ufeff", "😀"]
     return "".join(rng.choice(alphabet) for _ in range(n))
+
+
+def worldb_module(rng):
+    """A module from World B's protocol generator: accepted by construction, every language feature."""
+    from worldb import desc
+    from worldb import gen
+
+    m = gen.gen_module(rng)
+    return {"m.emb": desc.render_module(m)}, "m.emb", ["valid", "worldb_module"]
